@@ -32,7 +32,7 @@ LEVEL_NOTE = ("Trusted: Coq kernel, extraction, the harness feature extractor (i
               "Totality of that item-level code rests on the direct evaluation alone: it found eight crash families there (annotation "
               "compilation, attribute look-ups on the parent, tuple indexing into the parent's annotation, the expression builder's error path), "
               "all repaired by fix: commits and kept as must-pass corpus cases. "
-              "Known finding C12-F1: the Numpy parser returns no section at all for the empty docstring (C12_numpy_plain_text_refuted_F1 / _modulo_known).")
+              "No known finding is left: C12-F1 (Numpy returned no section for the empty docstring) is repaired as well.")
 MODEL = ("Model.C12_docstrings", "run_C12")
 COQ_TARGETS = ["Proofs/C12_docstrings.vo"]
 RULE = ("texts of <=12 lines (some longer) assembled from section keywords, separators, indentation levels, item syntaxes and prose: "
@@ -390,11 +390,6 @@ def sections_agree(style, exp, got) -> bool:
     return True
 
 
-def F1_gap(style, lines) -> bool:
-    """Python mirror of KnownGap_F1 (all lines blank) for the numpy parser."""
-    return style == "numpy" and all(not l.strip() for l in lines)
-
-
 # ---------------------------------------------------------------- evaluation of a batch of cases
 def evaluate(ctx, cases, stream):
     """cases: list of (style, text, opts, parent_kind)."""
@@ -429,13 +424,11 @@ def evaluate(ctx, cases, stream):
         if not ok_model:
             ctx.tie_failure("correspondence", f"{style}: model rejected its input", {"model": mo}, case)
             continue
-        post_m, wf_m, f1_m = (bool(x) for x in mo[1])
+        post_m, wf_m = (bool(x) for x in mo[1])
         if post_m != post_py:
             ctx.tie_failure("oracle", "cleandoc_post(model) vs harness evaluation on Docstring.lines", {"model": post_m, "python": post_py}, case)
         if not wf_m:
             ctx.tie_failure("oracle", "lines_wf(model): the feature extractor produced a null line that is not blank", {"lines": lines[:6]}, case)
-        if f1_m != F1_gap("numpy", lines):
-            ctx.tie_failure("correspondence", "KnownGap_F1(model) vs its Python mirror", {"model": f1_m}, case)
         # (C) model vs implementation
         if mo[0] == "err":
             ctx.observe("model_result", f"{style}:err:{mo[2]}")
@@ -467,7 +460,7 @@ def evaluate(ctx, cases, stream):
             good = (got == [] if want is None else (len(got) == 1 and got[0][0] == "text" and norm_text(got[0][1]) == want))
             if not good:
                 ctx.property_failure(case, {"problem": "plain text does not come back as a single text section", "sections": got[:4],
-                                            "expected_text": want}, finding="C12-F1" if (F1_gap(style, lines) and got == []) else None)
+                                            "expected_text": want})
 
 
 # ---------------------------------------------------------------- generators
@@ -655,8 +648,7 @@ def known_witness(ctx):
         w = f.get("witness", {})
         style = w.get("style", "numpy")
         r = run_impl(style, witness_text(w), w.get("options", {}), w.get("parent", "none"))
-        if fid == "C12-F1":
-            ctx.witness(fid, r["status"] == "ok" and r["canon"] == [])
+        ctx.witness(fid, bool(r["problems"]))      # no finding is listed at present
 
 
 def corpus_cases():
@@ -734,7 +726,7 @@ def search(ctx):
             want = plain_expectation(style, r["lines"], opts, pk)
             got = r["canon"]
             good = (got == [] if want is None else (len(got) == 1 and got[0][0] == "text" and norm_text(got[0][1]) == want))
-            if not good and not (F1_gap(style, r["lines"]) and got == []):
+            if not good:
                 ctx.property_failure(cj, {"problem": "plain text does not come back as a single text section", "sections": got[:4]})
                 return True
         return False
